@@ -4,7 +4,8 @@
 (* GopherPlus (reference reading: DESIGN.md Appendix E.3 = the property).                   *)
 (*                                                                                          *)
 (* init:   case (abstract, as enumerated by TLC), target / parent selectors                 *)
-(* events: menu  - the parent's plain Gopher listing (lines without CRLF)                   *)
+(* events: fetch - length of an independent plain Gopher fetch of the target item            *)
+(*         menu  - the parent's plain Gopher listing (lines without CRLF)                   *)
 (*         info  - the lexed `!` / `$` answer: first line, items <<[info, blocks]>>, junk   *)
 (*                 (lines that are neither block headers nor space-prefixed), complete      *)
 (*         doc   - the `+` answer: first line and number of bytes that follow               *)
@@ -20,16 +21,20 @@
 (* Design level (DRIFT): first line +-2, block order, lines exactly as the coded pipeline.   *)
 EXTENDS GopherPlus, MC_C15_B1, TraceBase
 
-VARIABLES tid, l, verdict, menu, havemenu
-tvars == <<tid, l, verdict, menu, havemenu>>
+VARIABLES tid, l, verdict, menu, havemenu, doclen
+tvars == <<tid, l, verdict, menu, havemenu, doclen>>
 
 Ev == Traces[tid].events
 Case == Traces[tid].init.case
 Target == Traces[tid].init.target
 
-TInit == tid \in 1..NTraces /\ l = 1 /\ verdict = "ok" /\ menu = <<>> /\ havemenu = FALSE
+TInit == tid \in 1..NTraces /\ l = 1 /\ verdict = "ok" /\ menu = <<>> /\ havemenu = FALSE /\ doclen = -1
 
-SizeOfCase == IF KnownSize(Case.kind) THEN Case.size ELSE -1
+\* the length of what the item delivers: the bytes gamma wrote, or - for documents whose length only the server knows
+\* (virtual items, decompressed files) - the length of an independent plain Gopher fetch; menus: the fetched menu
+SizeOfCase == IF KnownSize(Case.kind) THEN Case.size ELSE -1                 \* as coded
+SizeRef == IF KnownSize(Case.kind) THEN Case.size ELSE doclen                \* reference for a stated +VIEWS size
+DocRef == IF KnownSize(Case.kind) THEN Case.size ELSE IF Case.kind \in DocKinds THEN doclen ELSE -1
 ItemsFor(e, sel) == SelectSeq(e.items, LAMBDA it : SelectorOf(it.info) = sel)
 MenuFor(sel) == SelectSeq(menu, LAMBDA m : SelectorOf(m) = sel)
 
@@ -40,7 +45,7 @@ JudgeInfo(e) ==
     THEN "ItemsListed"
     ELSE LET it == IF e.form = "bang" THEN e.items[1] ELSE ItemsFor(e, Target)[1] IN
          IF ~(\A i \in 1..Len(e.items) : HasAdmin(e.items[i])) THEN "HasAdmin"
-         ELSE IF ~ViewsTruthful(it, MimesOf(Case.kind, Case.ext), SizeOfCase) THEN "ViewsTruthful"
+         ELSE IF ~ViewsTruthful(it, MimesOf(Case.kind, Case.ext), SizeRef, KnownSize(Case.kind)) THEN "ViewsTruthful"
          ELSE IF ~SidecarExact(it, Case.sc) THEN "SidecarExact"
          ELSE IF ~(IF e.form = "bang"
                    THEN Len(MenuFor(Target)) = 1 /\ it.info = MenuFor(Target)[1]
@@ -55,24 +60,26 @@ DriftInfo(e) ==
         THEN TRUE ELSE RecordDrift(tid, l, "block order differs from INFO ADMIN VIEWS + configured sidecar order"))
     /\ (IF SidecarAsCoded(it, Case.kind, Case.sc) THEN TRUE ELSE RecordDrift(tid, l, "sidecar lines differ from the coded pipeline"))
 
-JudgeDoc(e) == IF LenOrMarker(e.first, e.bodylen, SizeOfCase) THEN "ok" ELSE "LenOrMarker"
+JudgeDoc(e) == IF LenOrMarker(e.first, e.bodylen, DocRef) THEN "ok" ELSE "LenOrMarker"
 
 Consume ==
     /\ l <= Len(Ev) /\ verdict = "ok"
     /\ l' = l + 1 /\ UNCHANGED tid
     /\ LET e == Ev[l] IN
-       IF e.ev = "menu" /\ ~havemenu
-       THEN menu' = e.lines /\ havemenu' = TRUE /\ verdict' = "ok"
+       IF e.ev = "fetch" /\ doclen = -1 /\ ~havemenu
+       THEN doclen' = e.len /\ UNCHANGED <<menu, havemenu>> /\ verdict' = "ok"
+       ELSE IF e.ev = "menu" /\ ~havemenu /\ doclen >= 0
+       THEN menu' = e.lines /\ havemenu' = TRUE /\ UNCHANGED doclen /\ verdict' = "ok"
        ELSE IF e.ev = "info" /\ havemenu /\ e.form = Case.form
-       THEN /\ UNCHANGED <<menu, havemenu>>
+       THEN /\ UNCHANGED <<menu, havemenu, doclen>>
             /\ verdict' = JudgeInfo(e)
             /\ (IF JudgeInfo(e) = "ok" THEN DriftInfo(e) ELSE TRUE)
-       ELSE IF e.ev = "doc" /\ Case.form = "plus"
-       THEN /\ UNCHANGED <<menu, havemenu>>
+       ELSE IF e.ev = "doc" /\ Case.form = "plus" /\ doclen >= 0
+       THEN /\ UNCHANGED <<menu, havemenu, doclen>>
             /\ verdict' = JudgeDoc(e)
             /\ (IF JudgeDoc(e) = "ok" /\ e.first # LenHeader(SizeOfCase)
                 THEN RecordDrift(tid, l, "length header differs from the coded one") ELSE TRUE)
-       ELSE UNCHANGED <<menu, havemenu>> /\ verdict' = "unmatched"
+       ELSE UNCHANGED <<menu, havemenu, doclen>> /\ verdict' = "unmatched"
 
 \* a trace must end with the judged event: a trace whose events are all consumed without one is incomplete
 Judged == \E i \in 1..Len(Ev) : Ev[i].ev \in {"info", "doc"}
